@@ -7,7 +7,7 @@
 From Coq Require Import List NArith Permutation.
 Import ListNotations.
 Require Import Base.Wire Base.PyStr C20.Model C20.AuxList C20.Sort C20.Lemmas C20.History C20.Failure
-               C20.Invariant C20.Dispatch C20.Sharing C20.Examples C20.Lookup.
+               C20.Invariant C20.Dispatch C20.Sharing C20.Examples C20.Lookup C20.Alive.
 
 (* addCallback, for EVERY set-iteration oracle: either the new list is a permutation of
    old ++ [new] in which every declared edge (a before b) holds, or AssertionError is raised and
@@ -365,3 +365,42 @@ Theorem C20_lookup_example :
   (find_spec lower_ascii w_dot nAlphDot = None /\ find_spec lower_ascii w_dot nDotStar = None).
 Proof. split; [exact lookup_example|exact lookup_metachar_example]. Qed.
 Print Assumptions C20_lookup_example.
+
+(* ================= what stays registered is alive ================= *)
+(* [s_dead] is the log of die() calls.  After every history no registered callback has been torn
+   down, and no instance is torn down twice: die() reaches only instances that have left the list
+   for good (unload, or the success branch of reload).  In particular the old instance put back
+   by a reload whose import failed has not been touched. *)
+Theorem C20_registered_alive :
+  forall lower world ops s, Forall op_ok ops -> alive_st lower s ->
+  let s' := steps lower world s ops in
+  (forall c, In c (s_cbs s') -> ~ In (cid c) (s_dead s')) /\ NoDup (s_dead s').
+Proof.
+  intros lower world ops s Hops Ha s'.
+  destruct (steps_alive lower world ops s Hops Ha) as [_ [H1 [H2 _]]]. split; assumption.
+Qed.
+Print Assumptions C20_registered_alive.
+
+Theorem C20_registered_alive_from_empty :
+  forall lower world ops, Forall op_ok ops ->
+  let s' := steps lower world st0 ops in
+  (forall c, In c (s_cbs s') -> ~ In (cid c) (s_dead s')) /\ NoDup (s_dead s').
+Proof. intros lower world ops Hops. apply C20_registered_alive; [exact Hops|apply alive_st0]. Qed.
+Print Assumptions C20_registered_alive_from_empty.
+
+(* a reload whose import fails calls no die() at all *)
+Theorem C20_failed_import_reload_no_die :
+  forall lower world s n imp initf dief o s' r, imp <> 0%N ->
+  owner_reload lower world s n imp initf dief o = (s', r) -> s_dead s' = s_dead s.
+Proof. exact failed_import_reload_no_die. Qed.
+Print Assumptions C20_failed_import_reload_no_die.
+
+Theorem C20_alive_example :
+  s_dead (steps lower_ascii w6 st0 ops6) = [] /\
+  s_dead (steps lower_ascii w6 st0 (ops6 ++ [Reload nAlpha 0 false false id_oracle])) = [2%N] /\
+  s_dead (steps lower_ascii w6 st0 (ops6 ++ [Reload nAlpha 0 false false id_oracle; Reload nAlpha 1 false false id_oracle;
+                                             Unload nBeta true])) = [2%N; 3%N] /\
+  ids (s_cbs (steps lower_ascii w6 st0 (ops6 ++ [Reload nAlpha 0 false false id_oracle; Reload nAlpha 1 false false id_oracle;
+                                                  Unload nBeta true]))) = [0%N; 5%N; 1%N].
+Proof. exact history6_die_log. Qed.
+Print Assumptions C20_alive_example.
